@@ -14,7 +14,7 @@
 //!   reset:n   the first n octets of a GET, then a reset (RST)
 //!   getreset  a complete GET, then a reset without reading the response
 //!   idle      connects, sends nothing, closes after a pause
-//! obs: valid | invalid | truncated | closeearly | refused
+//! obs: valid | invalid | truncated | closeearly | refused | absent
 //!
 //! Observation: what the client saw (`200` / `500` / `closed` = connection closed without a response / `timeout` /
 //! `-` for clients that do not read), then `alive` or `exited:<code>`, and `spin` if the process burns CPU while idle.
@@ -85,10 +85,18 @@ impl WedgeExec {
             "invalid" => rig.obs.push(ObsBehaviour::Serve(b"{\"program\": 12, \"instance\": []}".to_vec())),
             "truncated" => rig.obs.push(ObsBehaviour::Serve(self.doc[..self.doc.len() / 2].to_vec())),
             "closeearly" => rig.obs.push(ObsBehaviour::CloseEarly),
-            "refused" => {
-                // nobody listens: take the socket file away for the duration of this connection
+            "absent" => {
+                // no socket file: take it away for the duration of this connection (connect fails with ENOENT)
                 let p = rig.obs.path.clone();
                 let _ = std::fs::rename(&p, p.with_extension("away"));
+            }
+            "refused" => {
+                // a socket file nobody listens on, as a stopped daemon leaves behind (connect fails with ECONNREFUSED)
+                let p = rig.obs.path.clone();
+                let _ = std::fs::rename(&p, p.with_extension("away"));
+                if let Ok(l) = std::os::unix::net::UnixListener::bind(&p) {
+                    drop(l);
+                }
             }
             _ => return false,
         }
@@ -96,9 +104,12 @@ impl WedgeExec {
     }
 
     fn restore_obs(&mut self, obs: &str) {
-        if obs == "refused" {
+        if obs == "refused" || obs == "absent" {
             let rig = self.rig.as_mut().unwrap();
             let p = rig.obs.path.clone();
+            if obs == "refused" {
+                let _ = std::fs::remove_file(&p);
+            }
             let _ = std::fs::rename(p.with_extension("away"), &p);
         }
     }
@@ -270,7 +281,7 @@ pub fn random_client(rng: &Prng) -> String {
 }
 
 pub fn random_obs(rng: &Prng) -> &'static str {
-    *rng.pick(&["valid", "valid", "invalid", "truncated", "closeearly", "refused"])
+    *rng.pick(&["valid", "valid", "invalid", "truncated", "closeearly", "refused", "absent"])
 }
 
 pub fn generate(out: &mut Out, rng: &Prng, thorough: bool, workdir: &Path) {
